@@ -359,7 +359,7 @@ class Verdict:
         rc = 0
         for key, ent in new:
             safe = re.sub(r"[^A-Za-z0-9_.-]+", "_", key)[:120]
-            rpath = os.path.join(REPLAYS, "%s-%s.json" % (self.prop, safe))
+            rpath = os.path.join(REPLAYS, "%s-%s%s.json" % (self.prop, safe, os.environ.get("VERIF_EVID_SUFFIX", "")))
             with open(rpath, "w") as fh:
                 json.dump({"property": self.prop, "key": key, "tier": self.tier,
                            "seed": self.seed, "count": ent["count"],
@@ -379,7 +379,8 @@ class Verdict:
               "notes": self.notes}
         if evidence_extra:
             ev.update(evidence_extra)
-        with open(os.path.join(EVID, "%s.json" % self.prop), "w") as fh:
+        # VERIF_EVID_SUFFIX: runs against seeded changes / scratch trees must not overwrite the evidence of the real tree
+        with open(os.path.join(EVID, "%s.json%s" % (self.prop, os.environ.get("VERIF_EVID_SUFFIX", ""))), "w") as fh:
             json.dump(ev, fh, indent=1, default=repr)
         for n in self.notes:
             print("note: " + n)
